@@ -214,6 +214,14 @@ def _run(ctx, case, net):
             ctx.violation("exception-in-node", "node %s: %r" % (oct(nn.obj.node_address), nn.exc), case)
             return
     # ---- offline judging
+    for nn in net.nodes:
+        if nn.peek_bad:
+            pk, e = nn.peek_bad[0]
+            ctx.violation("peek-differs-from-read", "node %s: peek() showed (from %s id %d type %d, %d bytes) but "
+                          "read() returned (from %s id %d type %d, %d bytes)"
+                          % (oct(nn.obj.node_address), oct(pk[0]), pk[2], pk[3], len(pk[4]),
+                             oct(e["from"]), e["id"], e["type"], len(e["msg"])), case)
+            return
     for p in net.air.log:
         if len(p.payload) > 32:
             ctx.violation("onair-over-32", "on-air packet of %d bytes" % len(p.payload), case)
